@@ -224,14 +224,14 @@ Print Assumptions C12_run_keys_monotone_valid.
     is FALSE on shape-map runs ([C12_remove_key_run_refuted], finding C12-F2):
     the model-level refutation [C12_remove_key_refuted] made real -- the pinned
     input shows it on the real Shaper. *)
-From Shexer Require Import Spec.Counts Lib.Dict Model.RunMap Proofs.RunMapProofs Proofs.RunMapWitness.
+From Shexer Require Import Spec.Counts Lib.Dict Model.ShexingFix Model.RunMap Proofs.RunMapProofs Proofs.RunMapWitness.
 From Shexer Require Model.Selectors.
 
 Theorem C12_map_threshold_only_in_shex : forall fa c orc sp thr g ns shapes,
   run_shapes_map fa c orc sp thr g = inl (ns, shapes) ->
-  exists P C, shex fa (scfg_map c sp ns) thr P C = inl shapes /\
+  exists P C, shex_cur fa (scfg_map c sp ns) thr P C = inl shapes /\
               forall thr', run_shapes_map fa c orc sp thr' g =
-                           match shex fa (scfg_map c sp ns) thr' P C with
+                           match shex_cur fa (scfg_map c sp ns) thr' P C with
                            | inl s => inl (ns, s) | inr e => inr (MERun (rerr_of_s e)) end.
 Proof. exact map_threshold_only_in_shex. Qed.
 Print Assumptions C12_map_threshold_only_in_shex.
@@ -263,16 +263,27 @@ Proof. repeat split; vm_compute; reflexivity. Qed.
 (** C12-F2 on the run: remove_empty_shapes on (the default), thresholds 1/3 <= 1/2:
     the key (ex:p, non-literal) of shape S is present at 1/2 and absent at 1/3 *)
 Lemma C12_remove_key_run_refuted :
+  c_clean_before_merge = false ->
   exists c orc sp g thr1 thr2 ns1 s1 ns2 s2 key,
     r_remove_empty c = true /\ fle BAlg thr1 thr2 = true /\
     run_shapes_map BAlg c orc sp thr1 g = inl (ns1, s1) /\ run_shapes_map BAlg c orc sp thr2 g = inl (ns2, s2) /\
     (exists sh2, In sh2 s2 /\ In key (map (skey (scfg_map c sp ns2)) (sh_stmts sh2))) /\
     (forall sh1, In sh1 s1 -> ~ In key (map (skey (scfg_map c sp ns1)) (sh_stmts sh1))).
 Proof.
-  exists (with_kls false base_rcfg), m_orc, m_spec, m_graph, (b_ratio 1 3), (b_ratio 1 2).
-  eexists. eexists. eexists. eexists. exists (false, ex "p", VNonLit).
-  split; [reflexivity|]. split; [vm_compute; reflexivity|].
-  split; [vm_compute; reflexivity|]. split; [vm_compute; reflexivity|]. split.
-  - eexists. split; [left; reflexivity|]. vm_compute. right. left. reflexivity.
-  - intros sh1 [<-|[]]. vm_compute. intros [H|[]]. discriminate H.
+  flag_or ltac:(
+    exists (with_kls false base_rcfg), m_orc, m_spec, m_graph, (b_ratio 1 3), (b_ratio 1 2);
+    eexists; eexists; eexists; eexists; exists (false, ex "p", VNonLit);
+    split; [reflexivity|]; split; [vm_compute; reflexivity|];
+    split; [vm_compute; reflexivity|]; split; [vm_compute; reflexivity|]; split;
+    [ eexists; split; [left; reflexivity|]; vm_compute; right; left; reflexivity
+    | intros sh1 [<-|[]]; vm_compute; intros [H|[]]; discriminate H ]).
 Qed.
+
+(** once ClassShexer removes the empty shapes before the merges (C12-F2 repaired): the key at both thresholds *)
+Example C12_remove_key_run_fixed :
+  c_clean_before_merge = true ->
+  map_keys (with_kls false base_rcfg) (b_ratio 1 3) =
+    Some [(lab_S, [(false, ex "name", VLit c_STRING_TYPE); (false, ex "p", VNonLit)])] /\
+  map_keys (with_kls false base_rcfg) (b_ratio 1 2) =
+    Some [(lab_S, [(false, ex "name", VLit c_STRING_TYPE); (false, ex "p", VNonLit)])].
+Proof. intros E. split; [exact (m_keys_third_fixed E) | exact m_keys_half]. Qed.
